@@ -153,16 +153,26 @@ def run_stream(spec, tier, seed, replay_line=None):
             args += ["--shard", "%d/%d" % (i, shards)]
         if replay_line is not None:
             args += ["--replay-line", replay_line]
-        h = subprocess.Popen(args, stdout=subprocess.PIPE, stderr=subprocess.PIPE)
+        os.makedirs(os.path.join(WORK, "logs"), exist_ok=True)
+        errpath = os.path.join(WORK, "logs", "%s.%d.%d.stderr" % (spec["name"], os.getpid(), i))
+        errf = open(errpath, "wb")
+        h = subprocess.Popen(args, stdout=subprocess.PIPE, stderr=errf)
         d = subprocess.Popen([driver], stdin=h.stdout, stdout=subprocess.PIPE, text=True)
         h.stdout.close()
-        procs.append((h, d))
+        procs.append((h, d, errpath, errf))
     res = {"total": 0, "ok": 0, "nontrivial": 0, "modeldiff": 0, "specdiff": 0, "bad": 0,
            "diffs": [], "samples": [], "harness_errors": []}
-    for h, d in procs:
+    for h, d, errpath, errf in procs:
         out, _ = d.communicate()
-        herr = h.stderr.read().decode(errors="replace")
         hrc = h.wait()
+        errf.close()
+        try:
+            with open(errpath, "rb") as ef:
+                ef.seek(max(0, os.path.getsize(errpath) - 3000))
+                herr = ef.read().decode(errors="replace")
+            os.remove(errpath)
+        except OSError:
+            herr = ""
         if hrc != 0:
             res["harness_errors"].append("harness %s exit %d: %s" % (spec["name"], hrc, herr[-1500:]))
         got_summary = False
